@@ -8,7 +8,21 @@ from symx.core import Shape
 from symx import refsem as R, shim, cirqstub, path
 from symx.num import Sym
 from symx.smt import Cons
-from harness.c01 import build_gates, PARAM
+from harness.c01 import build_gates as _build_gates_c01, PARAM
+
+
+def build_gates(env, spec):
+    """as harness.c01.build_gates; an entry (name, targets, controls, angle) carries a CONCRETE angle (e.g. exactly 0.0)"""
+    from tangelo.linq import Gate
+    if all(len(s_) == 3 for s_ in spec):
+        return _build_gates_c01(env, spec)
+    gates, params = [], []
+    for i, s_ in enumerate(spec):
+        name, tg, ct = s_[:3]
+        th = (s_[3] if len(s_) > 3 else env.angle(f"th{i}")) if name in PARAM else ""
+        params.append(th)
+        gates.append(Gate(name, tg, control=ct if ct else None, parameter=th))
+    return gates, params
 
 PROPERTY = "C19"
 MODS = ("tangelo.linq.target.backend", "tangelo.linq.target.target_cirq", "tangelo.linq.translator.translate_cirq",
@@ -28,7 +42,8 @@ META = dict(
                 thorough="n<=3 qubits, up to 4 gates, more assignments"),
     outside=["IEEE rounding", "sampling statistics", "qiskit noise conversion (package absent)"],
     stubs=["cirq.DensityMatrixSimulator -> exact stub (unitaries from the real cirq gates, channels as Kraus sums)",
-           "cirq.asymmetric_depolarize / cirq.depolarize with symbolic rates -> stub gates carrying the rates (documented channel definitions)",
+           "cirq.asymmetric_depolarize / cirq.depolarize / bit_flip / phase_flip / phase_damp / amplitude_damp with symbolic rates -> stub gates "
+           "carrying the rates (documented channel definitions; damping channels through their Kraus operators with a solver-side square root)",
            "cirq.sample_density_matrix -> recorder + solver-chosen draw"],
     trusted_base=["refsem density-matrix helpers", "cirq's documented definition of depolarize(p, n): each of the 4^n-1 non-identity Paulis with probability p/(4^n-1)"],
 )
@@ -46,7 +61,13 @@ def make_noise(env, assign):
     nm = NoiseModel()
     ref = {}
     for i, (g, kind) in enumerate(assign):
-        if kind == "pauli":
+        if kind in ("pauli-x", "pauli-y", "pauli-z"):
+            # a Pauli error with ONE non-zero rate (the other two exactly 0.0)
+            one = env.real(f"p{i}{kind[-1]}", lo=0, hi=1)
+            ps = [one if a == kind[-1] else 0.0 for a in "xyz"]
+            nm.add_quantum_error(g, "pauli", list(ps))
+            ref.setdefault(g, []).append(("pauli", ps))
+        elif kind == "pauli":
             ps = [env.real(f"p{i}{a}", lo=0, hi=1) for a in "xyz"]
             if env.symbolic:
                 s = ps[0] + ps[1] + ps[2]
@@ -66,7 +87,7 @@ def make_noise(env, assign):
 
 def oracle_dm(spec, params, n, ref, extra=()):
     rho = R.dm_from_state(R.basis_state(n, 0))
-    for (name, tg, ct), th in list(zip(spec, params)) + list(extra):
+    for (name, tg, ct), th in list(zip([s_[:3] for s_ in spec], params)) + list(extra):
         rho = R.dm_apply_unitary_gate(rho, n, name, tg, ct, th if name in PARAM else None)
         for kind, pr in ref.get(name, []):
             qs = list(tg) + list(ct or [])
@@ -335,6 +356,16 @@ def shapes(tier, seed):
         # one gate NAME occurring with different numbers of qubits (the depolarising channel acts on all of them)
         ([("H", [0], []), ("CRZ", [2], [0]), ("CRZ", [2], [0, 1])], 3, [("CRZ", "depol")]),
         ([("RY", [1], []), ("CX", [0], [1, 2]), ("CX", [2], [1])], 3, [("CX", "depol")]),
+    ]
+    cases += [
+        # a Pauli error with a single non-zero rate, seen through coherences
+        ([("H", [0], []), ("RZ", [0], [])], 1, [("RZ", "pauli-z")]),
+        ([("RY", [0], []), ("X", [0], [])], 1, [("X", "pauli-x")]),
+        ([("RX", [0], []), ("H", [0], [])], 1, [("H", "pauli-y")]),
+        ([("H", [0], []), ("CNOT", [1], [0])], 2, [("CNOT", "pauli-z")]),
+        # noisy rotation gates whose angle is exactly 0 (a variational circuit at theta = 0) still get their channel
+        ([("H", [0], []), ("RZ", [0], [], 0.0), ("RX", [0], [], 0.0)], 1, [("RZ", "pauli"), ("RX", "depol")]),
+        ([("RY", [0], []), ("RY", [1], [], 0.0), ("CRZ", [1], [0], 0.0)], 2, [("RY", "depol"), ("CRZ", "pauli")]),
     ]
     if tier == "thorough":
         cases += [
